@@ -66,12 +66,26 @@ class Library:
         if isinstance(blocks, Block):
             blocks = [blocks]
 
-        for block in blocks:
-            self._blocks.remove(block)
-            if isinstance(block, Entry):
-                del self._entries_by_key[block.key]
-            elif isinstance(block, String):
-                del self._strings_by_key[block.key]
+        # Remember the state, to leave the library untouched
+        #   if one of the blocks turns out not to be in the library.
+        blocks_before = list(self._blocks)
+        entries_before = dict(self._entries_by_key)
+        strings_before = dict(self._strings_by_key)
+
+        try:
+            for block in blocks:
+                self._blocks.remove(block)
+                if isinstance(block, Entry):
+                    del self._entries_by_key[block.key]
+                elif isinstance(block, String):
+                    del self._strings_by_key[block.key]
+        except ValueError:
+            self._blocks[:] = blocks_before
+            self._entries_by_key.clear()
+            self._entries_by_key.update(entries_before)
+            self._strings_by_key.clear()
+            self._strings_by_key.update(strings_before)
+            raise
 
     def replace(self, old_block: Block, new_block: Block, fail_on_duplicate_key: bool = True):
         """Replace a block with another block, at the same position.
